@@ -206,12 +206,65 @@ def run(tier):
             ck.cov['traces_validated_against_impl'] += 1
             ck.nontrivial((cat, n, 'lookup'))
     lookup_lists_leg(ck, tb, rnd, tier)
+    targets_leg(ck, cases, expected, meta, tier)
     ck.cov['rule'] = ('every database name (gss patterns with base64 tails incl. = + /) alone/first/middle/last among random neighbours, both roles, '
                       'unknown near-miss names, sized RSA/GEX contexts; expected notes from TLC (SshRating!Line); text and JSON compared per level as '
                       'multisets; --lookup of every database key compared with the context-free line. distinct = (category, name, position, role, view)')
     ck.assumptions += ['the alone/neighbour contexts avoid CBC+ETM pairings only by chance; Terrapin context is part of the expected notes either way',
                        'an unknown name must be flagged unknown in every view; other notes on it are not compared here']
     return ck.finish()
+
+
+def targets_leg(ck, cases, expected, meta, tier):
+    """The same comparison for servers audited as members of a target list (-T, worker threads): every target's text block and
+    JSON element carry the notes the rule gives for that target - including the notes that depend on what was measured on it
+    (key and group sizes, Terrapin context)."""
+    import json
+    from checks import multi
+    pool = [c for c in cases if c['role'] == 'server' and meta[c['id']][2] in ('sized', 'unknown-terrapin-shape', 'twice', 'same-name-two-categories')]
+    pool += [rating.mk_case(950000, kex=['curve25519-sha256'], key=['ssh-ed25519', 'rsa-sha2-256'], enc=['chacha20-poly1305@openssh.com', 'aes128-cbc'],
+                            mac=['hmac-sha2-256-etm@openssh.com', 'hmac-sha1'], hk={'rsa-sha2-256': (1024, '', 0)})]
+    extra = rating.evaluate(ck, pool[-1:])
+    exp = dict(expected)
+    exp.update(extra)
+    pool = pool[:(12 if tier == 'quick' else 60)] + pool[-1:]
+    groups = [pool[i:i + 3] for i in range(0, len(pool), 3)]
+    scs = []
+    for g in groups:
+        for threads in (1, 2):
+            for js in ((True, False) if threads == 1 else (True,)):
+                sc, labels = multi.scenario([('server', rating.server_cfg(c)) for c in g], threads, tuple(range(len(g))) if threads == 1 else None, json_out=js)
+                scs.append((sc, labels, g, threads, js))
+    for (sc, labels, g, threads, js), r in zip(scs, runner.run_many([x[0] for x in scs])):
+        ck.evaluated()
+        if r.get('harness_error') or r.get('hang'):
+            raise common.Machinery('target-list run failed: %r' % (r.get('harness_error') or 'hang'))
+        replay = {'targets': [[rating.shown(x) for cat in ('kex', 'key', 'enc', 'mac') for x in c[cat]] for c in g], 'threads': threads, 'argv': sc['argv'],
+                  'exit': r['exit'], 'stdout': r['stdout'][-3000:]}
+        docs = {}
+        try:
+            if js:
+                for el in json.loads(r['stdout']):
+                    docs[el['target']] = el
+            else:
+                for lab, b in zip(labels, multi.split_text(r['stdout'])):
+                    docs[lab] = rating.parse_view({'stdout': b, 'exit': 0}, 'text', None)
+        except (ValueError, KeyError, TypeError, report.ParseError):
+            ck.violation('target-list-unparsable view=%s' % ('json' if js else 'text'), 'cannot parse the output of a -T run of healthy servers', replay)
+            continue
+        bad = False
+        for lab, c in zip(labels, g):
+            if lab not in docs:
+                ck.violation('target-list-block-missing', 'no result for target %s' % lab, replay)
+                bad = True
+                continue
+            d = rating.compare_notes(c, exp[c['id']], js=docs[lab]) if js else rating.compare_notes(c, exp[c['id']], text=docs[lab])
+            for sig, desc in d:
+                ck.violation('target-list-' + sig, '[target %s of a list, %d thread(s)] %s' % (lab, threads, desc), replay)
+                bad = True
+        if not bad:
+            ck.cov['traces_validated_against_impl'] += 1
+            ck.nontrivial(('targets', tuple(c['id'] for c in g), threads, js))
 
 
 def lookup_lists_leg(ck, tb, rnd, tier):
